@@ -64,6 +64,10 @@ def make_tu(seed, batch, count, nops):
               "    trace (*volatile f) (const op *, unsigned) = entries[i].rt;",
               "    const trace r = f (entries[i].ops, entries[i].n);",
               "    steps += r.n;",
+              "    if (r.alloc_wrong_instance || r.alloc_unknown || r.alloc_leaked || entries[i].ct->alloc_wrong_instance",
+              "        || entries[i].ct->alloc_unknown || entries[i].ct->alloc_leaked)", "    {",
+              '      std::printf ("CXMISMATCH hist=%u step=%u op=%u cfg=%s allocator-pairing: run time wrong=%d unknown=%d leaked=%d, constant evaluation wrong=%d unknown=%d leaked=%d\\n", i, 0u, 0u, entries[i].cfg, r.alloc_wrong_instance, r.alloc_unknown, r.alloc_leaked, entries[i].ct->alloc_wrong_instance, entries[i].ct->alloc_unknown, entries[i].ct->alloc_leaked);',
+              "      ++mism;", "      continue;", "    }",
               "    for (unsigned k = 0; k < r.n || k < entries[i].ct->n; ++k)",
               "      if (r.n != entries[i].ct->n || r.h[k] != entries[i].ct->h[k])", "      {",
               '        std::printf ("CXMISMATCH hist=%u step=%u op=%u cfg=%s\\n", i, k, entries[i].ops[k].k % NKINDS, entries[i].cfg);',
